@@ -11,12 +11,17 @@ operation: all it needs is that every pivot `p` actually divided by satisfies `x
   * Over an ordered field (ℝ) with the code's magnitude comparison, a system with EXACTLY ONE solution
     never meets a zero pivot, so the solver returns that solution (`C13_nonsingular`): if the current
     column were zero from the diagonal down, the partially eliminated matrix would have a kernel vector.
-PARTIAL (DESIGN.md "C13 partial"): the refinement from the list-based `Dual`/`Dual2` arithmetic to the
-ring of dual numbers (per variable name, as done for C01/C02) is not yet a theorem for the solver; it is
-covered by the correspondence run (residual and row-permutation streams, all A/b kind pairings).
+  * LIST-LEVEL dual numbers, float matrix and dual right-hand side (`C13_dual_rhs`, the code path of
+    `fdsolve`): the solution is well-formed, its values solve the system for the data's values and its
+    sensitivity to every variable NAME solves the system for the data's sensitivities to that name —
+    whatever the layouts of the data (the solver is linear in the right-hand side; Proofs/FLinear.lean).
+PARTIAL (DESIGN.md "C13 partial"): for a dual-number MATRIX the refinement from the list-based arithmetic
+to the ring of dual numbers, and second order, are covered by the correspondence run (residual and
+row-permutation streams, all A/b kind pairings).
 -/
 import RateslibModel.Proofs.Gauss4
 import RateslibModel.Analysis.RealInst
+import RateslibModel.Proofs.FLinearInst
 import Mathlib.Algebra.TrivSqZeroExt.Basic
 import Mathlib.Data.Real.Basic
 namespace Rateslib
@@ -136,6 +141,18 @@ theorem C13_sound_dual_numbers (ge : TrivSqZeroExt ℝ ℝ → TrivSqZeroExt ℝ
     (s : Sys (TrivSqZeroExt ℝ ℝ)) (hp : PivotsGood ge n (List.range n) s) :
     ∀ r, r < n → ∑ c ∈ range n, s.a r c * (@dsolve21 _ (ringLinOps ge) n s) c = s.b r :=
   C13_sound ge n s hp
+
+open Rateslib.Dual in
+/-- Float matrix, first-order dual-number right-hand side (any layouts): the list-level solver's answer
+is well-formed; its values are the solver's answer for the VALUES of the data, and its sensitivity to
+every variable name `v` is the solver's answer for the data's SENSITIVITIES to `v`.  With `C13_nonsingular`
+both are the true solutions, i.e. `A x = b` holds in value and in every first derivative carried by `b`. -/
+theorem C13_dual_rhs (n : Nat) (a : Nat → Nat → ℝ) (b : Nat → Dual ℝ) (hb : ∀ i, (b i).WF)
+    (v : String) (r : Nat) :
+    (fdsolve21 (α := ℝ) n ⟨a, b⟩ r).WF ∧
+    (fdsolve21 (α := ℝ) n ⟨a, b⟩ r).real = fdsolve21 (α := ℝ) (σ := ℝ) n ⟨a, fun i => (b i).real⟩ r ∧
+    den (fdsolve21 (α := ℝ) n ⟨a, b⟩ r) v = fdsolve21 (α := ℝ) (σ := ℝ) n ⟨a, fun i => den (b i) v⟩ r :=
+  fdsolve21_dual_rhs n a b hb v r
 
 /-! Non-vacuity: a 2×2 rational system whose first pivot needs a row swap (0x + 2y = 2, 4x + y = 9). -/
 def exSys : Sys ℚ :=
